@@ -101,6 +101,8 @@ def gen_marker(rng, n, tier):
         if c['nameset'] == 'repeat' and len(c['cols']) >= 2:
             c['cols'][-1] = list(c['cols'][0])      # the last entry tests the first feature again
             c['scalar'] = False
+        elif rng.random() < 0.15:                    # thresholding in place: the marker is written under the name of one of the tested features (each observation is tested on its values before its marker is written)
+            c['inplace'] = rng.randrange(nf); c['before'] = None
     return out
 
 
@@ -120,17 +122,18 @@ def run_marker(case):
     for nm, c in zip(names, case['cols']):
         if not tr.hasAnalyticalFeature(nm):
             tr.createAnalyticalFeature(nm, [nan if v is None else v for v in c])
+    OUT = 'out' if case.get('inplace') is None else names[case['inplace']]
     if case.get('before'):
         sg.segmentation(tr, names, 'out', list(case['before'][0]), case['before'][1])
     if case.get('via') == 'collection':              # the collection-level entry point, which runs the same segmentation on each of its tracks
         from tracklib.core import TrackCollection
         col = TrackCollection([tr])
-        col.segmentation(names[0] if case['scalar'] else names, 'out', case['thr'][0] if case['scalar'] else list(case['thr']), case['mode'])
+        col.segmentation(names[0] if case['scalar'] else names, OUT, case['thr'][0] if case['scalar'] else list(case['thr']), case['mode'])
     elif case['scalar']:
-        sg.segmentation(tr, names[0], 'out', case['thr'][0], case['mode'])
+        sg.segmentation(tr, names[0], OUT, case['thr'][0], case['mode'])
     else:
-        sg.segmentation(tr, names, 'out', list(case['thr']), case['mode'])
-    return {'out': [float(v) for v in tr.getAnalyticalFeature('out')], 'cols': [[None if v != v else v for v in tr.getAnalyticalFeature(nm)] for nm in names], 'names': tr.getListAnalyticalFeatures()}
+        sg.segmentation(tr, names, OUT, list(case['thr']), case['mode'])
+    return {'out': [float(v) for v in tr.getAnalyticalFeature(OUT)], 'cols': [(case['cols'][j] if nm == OUT else [None if v != v else v for v in tr.getAnalyticalFeature(nm)]) for j, nm in enumerate(names)], 'names': tr.getListAnalyticalFeatures()}
 
 
 def coq_marker(case, obs):
